@@ -27,6 +27,7 @@ type Request struct {
 	HasPageSize bool
 	Serial      int
 	Timestamp   int64
+	Keyspace    string // proto >= 5, flag 0x80
 	// BATCH
 	BatchKinds []byte
 	BatchStmts []string
@@ -237,7 +238,13 @@ func parseParams(r *R, req *Request, proto int) {
 	if proto < 2 {
 		return
 	}
-	flags := int(r.Byte())
+	var flags int
+	if proto >= 5 {
+		// protocol v5 (as gocql's beta-v5 framer writes it): the query flags are an [int]
+		flags = int(uint32(r.Int()))
+	} else {
+		flags = int(r.Byte())
+	}
 	req.QFlags = flags
 	if flags&0x01 != 0 {
 		n := r.Short()
@@ -260,6 +267,9 @@ func parseParams(r *R, req *Request, proto int) {
 	}
 	if flags&0x20 != 0 {
 		req.Timestamp = r.Long()
+	}
+	if proto >= 5 && flags&0x80 != 0 {
+		req.Keyspace = r.String()
 	}
 }
 
